@@ -618,10 +618,10 @@ def task_numeric_twice(tier, seed):
     return [ob(tag, "discharged", kind="bounded", engine="smallscope", backend="numeric-contract", evaluations=N, sample={"instances": N})]
 
 
-def numeric_displ(nb, rng):
+def numeric_displ(nb, rng, scale=1.0, offset=0.0):
     T = _T()
     n = nb + 1
-    pos = rng.normal(size=(n, 3))
+    pos = rng.normal(size=(n, 3)) * scale + offset
     order = [int(x) for x in rng.permutation(np.arange(1, n))]          # neighbour lists in arbitrary order
     bonds = {0: [(j, float(np.linalg.norm(pos[0] - pos[j]))) for j in order]}
     orig = pos.copy()
@@ -652,10 +652,13 @@ def task_numeric_displ(tier, seed):
     first, nbad = None, 0
     for t in range(N):
         nb = 1 + t % 5
-        bad = numeric_displ(nb, rng)
+        # bond lengths from 1e-3 nm to 1e2 nm, molecules near and far from the origin
+        scale = [1.0, 1e-3, 1e2, 1e-2][(t // 5) % 4]
+        offset = [0.0, 0.0, 0.0, 500.0][(t // 20) % 4]
+        bad = numeric_displ(nb, rng, scale, offset)
         if bad:
             nbad += 1
-            first = first or ({"fn": "find_atom_random_displ", "nb": nb, "signature": f"nb{nb}"}, bad)
+            first = first or ({"fn": "find_atom_random_displ", "nb": nb, "scale": scale, "offset": offset, "signature": f"nb{nb}"}, bad)
     if first:
         return [ob(tag, "refuted", kind="bounded", engine="smallscope", backend="numeric-contract", evaluations=N,
                    reason="; ".join(first[1][:3]), cex=first[0])]
@@ -726,7 +729,7 @@ def replay(prop, cex):
         np.random.seed(3)
         for _ in range(50):
             try:
-                bad = numeric_displ(cex["nb"], rng)
+                bad = numeric_displ(cex["nb"], rng, cex.get("scale", 1.0), cex.get("offset", 0.0))
             except Exception as e:
                 bad = [f"raises {type(e).__name__}: {e}"]
             if bad:
